@@ -4,6 +4,7 @@ import (
 	"errors"
 	"fmt"
 	"os"
+	"path"
 	"path/filepath"
 	"sort"
 	"strings"
@@ -99,6 +100,9 @@ func caseC06(c *Ctx) {
 	if c.Chance(1, 10) {
 		op.Alias = true
 	}
+	if c.Chance(1, 8) {
+		op.Decoys = true
+	}
 	fo := forestOpts{maxRoots: 4, maxExtra: 6, alpha: []int{alphaPlain, alphaFS}[c.Draw(2)], distinctRoots: true, maxDepth: 4, maxFan: 3, shapes: true}
 	if op.FromRoot {
 		fo.maxRoots = 1
@@ -111,6 +115,10 @@ func caseC06(c *Ctx) {
 		for len(forest) < 12 {
 			forest = append(forest, genTree(c, fmt.Sprintf("r%d", len(forest)), fo))
 		}
+	}
+	sp := genSpelling(c, false)
+	if !massive {
+		sp = genSpellingSimple(c, forest) // may adjust root names: before anything refers to them
 	}
 	st := c06state{pre: map[string]string{}}
 	st.kind = []string{"empty", "missing", "preexisting", "below-file", "long-name"}[c.Pick(5, 2, 3, 1, 1)]
@@ -138,7 +146,6 @@ func caseC06(c *Ctx) {
 	}
 	restricted := c.Chance(1, 3)
 	dotdot := c.Chance(1, 8)
-	sp := genSpelling(c, false)
 	doc, _ := spell(c, forest, sp)
 	nNodes := 0
 	for _, r := range forest {
@@ -460,11 +467,19 @@ func caseC08(c *Ctx) {
 	if c.Chance(1, 10) {
 		op.Alias = true
 	}
+	if c.Chance(1, 8) {
+		op.Decoys = true
+	}
 	fo := forestOpts{maxRoots: 3, maxExtra: 6, alpha: []int{alphaPlain, alphaFS}[c.Draw(2)], distinctRoots: true, maxDepth: 4, maxFan: 3, shapes: true}
 	if op.FromRoot {
 		fo.maxRoots = 1
 	}
 	forest := genForest(c, fo)
+	if c.Chance(1, 15) {
+		// a root named "." stands for the target directory itself
+		forest[0].Name = "."
+		c.st.Count("root-named-dot")
+	}
 	exts := extSets[c.Draw(len(extSets))]
 	j := newJail()
 	defer removeJail(j)
@@ -553,6 +568,9 @@ func caseC08(c *Ctx) {
 			os.MkdirAll(filepath.Join(target, fmt.Sprintf("unrelated%d", e), "sub"), 0o755)
 			hist = append(hist, "external: mkdir unrelated (outside every root)")
 		case 4:
+			if path.Clean(p) == "." {
+				break // that would turn the target directory itself into a file
+			}
 			os.RemoveAll(filepath.Join(target, p))
 			if os.MkdirAll(filepath.Dir(filepath.Join(target, p)), 0o755) == nil {
 				os.WriteFile(filepath.Join(target, p), []byte("now a file"), 0o644)
@@ -597,13 +615,14 @@ func caseC08(c *Ctx) {
 	for i, r := range vforest {
 		nodeSet := map[string]bool{}
 		for _, p := range r.Paths("") {
+			p = path.Clean(p)
 			nodeSet[p] = true
 			if _, err := os.Lstat(filepath.Join(target, p)); err != nil {
 				diffs[i].missing = append(diffs[i].missing, p)
 			}
 		}
 		for _, e := range snapshot(filepath.Join(target, r.Name)) {
-			p := r.Name + "/" + e.Path
+			p := path.Clean(r.Name + "/" + e.Path)
 			if !nodeSet[p] {
 				diffs[i].extra = append(diffs[i].extra, p)
 			}
